@@ -195,10 +195,36 @@ def run(ctx):
         ctx.extra["generations"] = n
         graph_generations(ctx, work, graphs)
         cli_routes(ctx, work, sets)
+        cache_runs(ctx, work)
     finally:
         import shutil
 
         shutil.rmtree(work, ignore_errors=True)
+
+
+def cache_runs(ctx, work):
+    """Repeated runs with the --cache option: what an earlier run left in the cache (the same source files, listed in
+    another order) must not change what this command generates."""
+    def item(ns, extra):
+        return (f'<xs:schema xmlns:xs="http://www.w3.org/2001/XMLSchema" targetNamespace="{ns}" xmlns:t="{ns}" elementFormDefault="qualified">'
+                f'<xs:complexType name="Item"><xs:sequence><xs:element name="{extra}" type="xs:string"/></xs:sequence></xs:complexType>'
+                f'<xs:element name="root_{extra}"><xs:complexType><xs:sequence><xs:element name="item" type="t:Item"/></xs:sequence></xs:complexType></xs:element></xs:schema>')
+
+    files = {"a.xsd": item("urn:a", "a"), "b.xsd": item("urn:b", "b"), "c.xsd": item("urn:c", "c")}
+    ab, ba = ["a.xsd", "b.xsd", "c.xsd"], ["c.xsd", "b.xsd", "a.xsd"]
+    for style in ("clusters", "single-package", "namespaces"):
+        spath = os.path.join(work, "cache.json")
+        json.dump({"files": files, "style": style, "runs": [[ab, False], [ba, True], [ab, True], [ab, True], [ba, True], [ba, False]]}, open(spath, "w"))
+        r = worker(["cachegen", spath], 0)["runs"]
+        ctx.case(("cache-runs", style))
+        if any("error" in x for x in r):
+            ctx.violation(f"cache runs ({style}): generation failed: {[x.get('error') for x in r if 'error' in x][:2]}", {"style": style})
+            continue
+        if r[2] != r[0] or r[3] != r[0]:
+            ctx.violation(f"cache runs ({style}): the same command gives other files after a cached run that listed the sources in another order: {_diff(r[0], r[2] if r[2] != r[0] else r[3])}",
+                          {"style": style, "sources": files})
+        if r[1] != r[5] or r[4] != r[5]:
+            ctx.violation(f"cache runs ({style}): cached and uncached runs of the same command differ: {_diff(r[5], r[1] if r[1] != r[5] else r[4])}", {"style": style, "sources": files})
 
 
 def graph_generations(ctx, work, graphs3):
